@@ -35,6 +35,7 @@ type searchHit struct {
 	observed string
 	clause   string
 	panicked bool
+	hung     bool
 	cases    int
 	bound    string
 	test     string
@@ -115,20 +116,26 @@ func searchCandidates(alpha []byte, literals []string, maxLen int) []string {
 	return cands
 }
 
-func searchEligible(fn *ssa.Function, spec *FuncSpec) bool {
-	if fn == nil || fn.Pkg == nil || fn.Parent() != nil || fn.Signature.Recv() != nil || spec == nil || len(spec.Ensures) == 0 {
-		return false
+// searchEligible: runnable = the real function can be run on short strings
+// (panics and calls that do not return are then observable); observable = its
+// results can also be compared with the postconditions.
+func searchEligible(fn *ssa.Function, spec *FuncSpec) (runnable, observable bool) {
+	if fn == nil || fn.Pkg == nil || fn.Parent() != nil || fn.Signature.Recv() != nil || spec == nil {
+		return false, false
 	}
 	if len(fn.Params) == 0 || len(fn.Params) > 2 || fn.TypeParams().Len() > 0 {
-		return false
+		return false, false
 	}
 	for _, p := range fn.Params {
 		if b, ok := p.Type().Underlying().(*types.Basic); !ok || b.Kind() != types.String {
-			return false
+			return false, false
 		}
 	}
 	if len(spec.Requires) > 0 {
-		return false // inputs would have to satisfy a precondition
+		return false, false // inputs would have to satisfy a precondition
+	}
+	if len(spec.Ensures) == 0 {
+		return true, false
 	}
 	res := fn.Signature.Results()
 	for i := 0; i < res.Len(); i++ {
@@ -136,13 +143,13 @@ func searchEligible(fn *ssa.Function, spec *FuncSpec) bool {
 		case KInt, KBool, KStr:
 		case KIface:
 			if !types.Identical(res.At(i).Type(), types.Universe.Lookup("error").Type()) {
-				return false
+				return true, false
 			}
 		default:
-			return false
+			return true, false
 		}
 	}
-	return true
+	return true, true
 }
 
 // searchContract runs the bounded search for fn; hit == nil when nothing was
@@ -154,7 +161,8 @@ func searchContract(eng *Engine, fn *ssa.Function) (hit *searchHit) {
 			fmt.Fprintf(os.Stderr, "search %s: "+format+"\n", append([]any{fn.Name()}, a...)...)
 		}
 	}
-	if !searchEligible(fn, spec) {
+	runnable, observable := searchEligible(fn, spec)
+	if !runnable {
 		dbg("not eligible")
 		return nil
 	}
@@ -190,7 +198,7 @@ func searchContract(eng *Engine, fn *ssa.Function) (hit *searchHit) {
 	}
 	results := fn.Signature.Results()
 	var resVals []Val
-	for i := 0; i < results.Len(); i++ {
+	for i := 0; observable && i < results.Len(); i++ {
 		v := freshVal(fx.decls, shapeOf(results.At(i).Type()), "obs")
 		resVals = append(resVals, v)
 		n := results.At(i).Name()
@@ -204,6 +212,9 @@ func searchContract(eng *Engine, fn *ssa.Function) (hit *searchHit) {
 		}
 	}
 	for _, l := range spec.Lets {
+		if !observable {
+			break
+		}
 		e, err := parseExpr(l.Type)
 		if err != nil {
 			return nil
@@ -220,6 +231,9 @@ func searchContract(eng *Engine, fn *ssa.Function) (hit *searchHit) {
 	var clauses []usable
 	var defs []T // definitions of string constants met while evaluating
 	for i := range spec.Ensures {
+		if !observable {
+			break // only panics and calls that do not return are looked for
+		}
 		c := spec.Ensures[i]
 		before := len(fx.decls.Text())
 		nAssume := len(fx.assumes)
@@ -255,9 +269,6 @@ func searchContract(eng *Engine, fn *ssa.Function) (hit *searchHit) {
 		clauses = append(clauses, usable{clauseName(c, i), t})
 	}
 	dbg("%d usable clauses of %d", len(clauses), len(spec.Ensures))
-	if len(clauses) == 0 {
-		return nil
-	}
 	// candidates
 	alpha, literals := searchAlphabet(fn, 7)
 	maxLen := 4
@@ -284,7 +295,7 @@ func searchContract(eng *Engine, fn *ssa.Function) (hit *searchHit) {
 	// run the real function on all of them
 	own := fn.Pkg.Pkg
 	var src strings.Builder
-	fmt.Fprintf(&src, "package %s\n\nimport (\n\t\"fmt\"\n\t\"os\"\n\t\"testing\"\n)\n\n", own.Name())
+	fmt.Fprintf(&src, "package %s\n\nimport (\n\t\"fmt\"\n\t\"os\"\n\t\"sync/atomic\"\n\t\"testing\"\n\t\"time\"\n)\n\n", own.Name())
 	src.WriteString(`func govcShowS(name string, v any) {
 	switch x := v.(type) {
 	case string:
@@ -303,7 +314,28 @@ func searchContract(eng *Engine, fn *ssa.Function) (hit *searchHit) {
 }
 
 `)
-	src.WriteString("func TestGovcReplay(t *testing.T) {\n\tcases := [][]string{\n")
+	// a watchdog: a case that has not returned after 15 s (the others take
+	// microseconds) is reported and ends the run
+	src.WriteString(`var govcCur atomic.Int64
+
+func govcWatch() {
+	last, since := int64(-1), time.Now()
+	for {
+		time.Sleep(500 * time.Millisecond)
+		c := govcCur.Load()
+		if c != last {
+			last, since = c, time.Now()
+			continue
+		}
+		if time.Since(since) > 15*time.Second {
+			fmt.Fprintf(os.Stdout, "\nGOVC-CASE-HANG %d\n", c)
+			os.Exit(3)
+		}
+	}
+}
+
+`)
+	src.WriteString("func TestGovcReplay(t *testing.T) {\n\tgo govcWatch()\n\tcases := [][]string{\n")
 	for _, tu := range tuples {
 		src.WriteString("\t\t{")
 		for _, s := range tu {
@@ -311,7 +343,7 @@ func searchContract(eng *Engine, fn *ssa.Function) (hit *searchHit) {
 		}
 		src.WriteString("},\n")
 	}
-	src.WriteString("\t}\n\tfor i, c := range cases {\n\t\tfunc() {\n\t\t\tdefer func() {\n\t\t\t\tif r := recover(); r != nil {\n\t\t\t\t\tfmt.Fprintf(os.Stdout, \"GOVC-CASE-PANIC %d %v\\n\", i, r)\n\t\t\t\t}\n\t\t\t}()\n")
+	src.WriteString("\t}\n\tfor i, c := range cases {\n\t\tgovcCur.Store(int64(i))\n\t\tfunc() {\n\t\t\tdefer func() {\n\t\t\t\tif r := recover(); r != nil {\n\t\t\t\t\tfmt.Fprintf(os.Stdout, \"GOVC-CASE-PANIC %d %v\\n\", i, r)\n\t\t\t\t}\n\t\t\t}()\n")
 	var lhs []string
 	for i := 0; i < results.Len(); i++ {
 		lhs = append(lhs, fmt.Sprintf("r%d", i))
@@ -342,6 +374,26 @@ func searchContract(eng *Engine, fn *ssa.Function) (hit *searchHit) {
 	out := runReplayTestT(eng.repo, pkgDir, src.String(), 120)
 	if !strings.Contains(out, "GOVC-SEARCH-DONE") {
 		dbg("test did not complete: %s", truncate(out, 600))
+		// one case did not return: confirmed by running that case alone
+		for _, l := range strings.Split(out, "\n") {
+			if !strings.HasPrefix(l, "GOVC-CASE-HANG ") {
+				continue
+			}
+			i, err := strconv.Atoi(strings.TrimPrefix(l, "GOVC-CASE-HANG "))
+			if err != nil || i < 0 || i >= len(tuples) {
+				continue
+			}
+			var args []string
+			for _, s := range tuples[i] {
+				args = append(args, strconv.Quote(s))
+			}
+			one := fmt.Sprintf("package %s\n\nimport (\n\t\"fmt\"\n\t\"testing\"\n)\n\nfunc TestGovcReplay(t *testing.T) {\n\tfmt.Println(\"GOVC-ONE-START\")\n\t%s(%s)\n\tfmt.Println(\"GOVC-ONE-END\")\n}\n", own.Name(), fn.Name(), strings.Join(args, ", "))
+			alone := runReplayTestT(eng.repo, pkgDir, one, 30)
+			dbg("alone: %s", truncate(alone, 300))
+			if strings.Contains(alone, "GOVC-ONE-START") && !strings.Contains(alone, "GOVC-ONE-END") && strings.Contains(alone, "timed out") {
+				return &searchHit{inputs: tuples[i], observed: "the call did not return within 30 s (run alone; 15 s within the batch, where the other inputs take microseconds)", hung: true, cases: len(tuples), bound: bound, test: oneCaseTest(own.Name(), fn, tuples[i]), pkgDir: pkgDir}
+			}
+		}
 		return nil
 	}
 	// parse
@@ -372,6 +424,9 @@ func searchContract(eng *Engine, fn *ssa.Function) (hit *searchHit) {
 				cur.lines[m[1]] = []string{m[2], m[3]}
 			}
 		}
+	}
+	if len(clauses) == 0 {
+		return nil
 	}
 	// one solver session: for every case, are all usable clauses true?
 	pinStr := func(v Val, s string) []T {
@@ -525,6 +580,9 @@ func (run *checkRun) searchViolation(eng *Engine, r *FuncResult, o *Obligation, 
 	what := "postcondition '" + hit.clause + "' of the function's contract is FALSE on the observed behaviour of the real code"
 	if hit.panicked {
 		what = "the real function panics"
+	}
+	if hit.hung {
+		what = "the real function does not return"
 	}
 	doc.Note = "the prover's answer carries no input that reproduces (no model, a model behind a loop cut or a callee contract, or a loop contract that no longer binds to the code); found by a BOUNDED search instead: the real function was run on " + hit.bound + "; on this input " + what
 	doc.ClauseCheck = what
